@@ -47,12 +47,23 @@ structure MhState where
   mutated : Bool := false                    -- a writer changed the log since the last digest
 deriving Inhabited
 
+/-- C14: the damage applied to one segment log file of a copy of the directory. -/
+structure Dmg where
+  lo : Int
+  hi : Int              -- offsets of the damaged segment: [lo, hi)
+  kind : String         -- flip | over | zero | trunc
+  recs : List Int       -- records with at least one changed (or lost) byte
+  fsize : Int
+  pos : Int := 0
+deriving Inhabited
+
 structure DState where
   main : Side := {}
   bak  : Side := {}
   mh   : MhState := {}
   nt   : DNotify.NtState := {}
   bl   : DBlock.BlState := {}
+  dmg  : Option Dmg := none          -- the damage applied to the copy being read (C14)
   blPre : Option Side := none        -- the log as it was when the blocking log was closed
   crashPre : Spec := ⟨[], 0⟩          -- L0 state before the operation in flight
   crashOp : List String := []        -- the operation in flight (tokens)
@@ -556,7 +567,7 @@ def processLine (st : DState) (raw : String) : DState :=
   if line = "" then st
   else if line.startsWith "#" then
     if line.startsWith "# hist" then
-      { st with main := {}, bak := {}, hists := st.hists + 1, ackW := 0, autosync := false, crashArmed := false, bl := {}, blPre := none }
+      { st with main := {}, bak := {}, hists := st.hists + 1, ackW := 0, autosync := false, crashArmed := false, bl := {}, blPre := none, dmg := none }
     else st
   else
     match line.splitOn " => " with
@@ -603,6 +614,62 @@ def processLine (st : DState) (raw : String) : DState :=
           let vs := judgeLoss st.main.spec st.ackW implToks
           let out := vs.foldl (fun o v => o.push s!"VIOL {st.line} {v} {lhs} w={st.ackW} impl={(String.intercalate " " implToks).take 300}") st.out
           { st with out := out, viols := st.viols + vs.length, counts := bump st.counts "loss.img" }
+        else
+        if op0.startsWith "dr." then
+          let implTxt := String.intercalate " " implToks
+          match opToks with
+          | "dr.damage" :: opts =>
+            let kind := ((opts.find? (·.startsWith "kind=")).map (fun t => (t.drop 5).toString)).getD "?"
+            let recs := (((opts.find? (·.startsWith "recs=")).map (fun t => (t.drop 5).toString)).bind parseInts).getD []
+            { st with dmg := some { lo := optInt opts "seg" 0, hi := optInt opts "end" 0, kind := kind, recs := recs,
+                                    fsize := optInt opts "fsize" 0, pos := optInt opts "at" 0 },
+                      counts := bump st.counts ("dr.damage:" ++ kind) }
+          | ["dr.open"] =>
+            let vs := if implTxt == "err panic" then ["NoPanic"] else []
+            let out := vs.foldl (fun o v => o.push s!"VIOL {st.line} {v} {lhs} impl={implTxt}") st.out
+            { st with out := out, viols := st.viols + vs.length,
+                      counts := bump st.counts ("dr.open:" ++ (if implToks.head? == some "ok" then "ok" else "err")) }
+          | ["dr.end"] => { st with dmg := none }
+          | "dr.call" :: callT =>
+            let d := st.dmg.getD default
+            let alloc := optInt implToks "alloc" 0
+            let implR := implToks.filter (fun t => !t.startsWith "alloc=")
+            let implR' := String.intercalate " " implR
+            -- what the undamaged log answers (the model; its agreement with the code on the undamaged
+            -- directory is checked by the baseline sweep of the same calls)
+            let h := handle st.main callT implR
+            let r0 := (h.model.splitOn " ").filter (· ≠ "")
+            let msgs0 := r0.filterMap parseMsg
+            let msgsI := implR.filterMap parseMsg
+            let implOk := implR.head? == some "ok"
+            let inSeg := fun (o : Int) => decide (d.lo ≤ o) && decide (o < d.hi)
+            let startOff : Option Int := match callT with
+              | ["cons", o, _] => o.toInt?
+              | ["get", o] => o.toInt?
+              | ["cbk", _, o, _] => o.toInt?
+              | _ => none
+            -- the answer's own next offset lies in the damaged segment (e.g. it ends at NextOffset, which the head supplies)
+            let nxt0 : Option Int := match callT.head?, r0 with
+              | some "cons", "ok" :: n :: _ => n.toInt?
+              | some "cbk", "ok" :: n :: _ => n.toInt?
+              | _, _ => none
+            let isHead := decide (d.hi ≥ 4611686018427387904)
+            let touchesSeg := msgs0.any (fun m => inSeg m.off) ||
+              (match startOff with | some o => inSeg o || (o == -1 && isHead) | none => false) ||
+              (match nxt0 with | some n => inSeg n | none => false)
+            let includesDamaged := msgs0.any (fun m => d.recs.contains m.off)
+            let overwrite := d.kind == "flip" || d.kind == "over" || d.kind == "zero"
+            let vs : List String :=
+              (if implR' == "err panic" then ["NoPanic"] else []) ++
+              (if implOk && !(msgsI.all (fun m => st.main.spec.live.contains m)) then ["NeverDifferent"] else []) ++
+              (if overwrite && includesDamaged && implOk then ["DamagedIsError"] else []) ++
+              (if !touchesSeg && implR' ≠ h.model then ["OtherSegmentsSame"] else []) ++
+              (if alloc > (maxBody : Int) + 8 * d.fsize + 16 * 1024 * 1024 then ["AllocBound"] else [])
+            let out := vs.foldl (fun o v => o.push s!"VIOL {st.line} {v} {lhs} impl={implTxt.take 300} model={h.model.take 200} dmg={d.kind} seg={d.lo} at={d.pos} recs={d.recs}") st.out
+            let cls := if includesDamaged then "hit" else if touchesSeg then "sameseg" else "other"
+            { st with out := out, viols := st.viols + vs.length,
+                      counts := bump st.counts ("dr.call:" ++ cls ++ ":" ++ (if implOk then "ok" else "err")) }
+          | _ => { st with out := st.out.push s!"BADLINE {st.line} {line}" }
         else
         if op0.startsWith "bl." then
           let implTxt := String.intercalate " " implToks
